@@ -201,5 +201,29 @@ func fixedHarmless() []mutant {
 		{Harmless: true, ID: "h-r6-C17-fixed", Patch: "refactors/r6-C17-fixed.diff"},
 		{Harmless: true, ID: "h-r6-C18-fixed", Patch: "refactors/r6-C18-fixed.diff"},
 		{Harmless: true, ID: "h-r6-C20-fixed", Patch: "refactors/r6-C20-fixed.diff"},
+		// the repaired forms of the round-7 seeds (the same optimisation / refactoring done right)
+		{Harmless: true, ID: "h-r7-C01-fixed", Patch: "seeded/C01g-perf-fields-seen-list/fixed.diff"},
+		{Harmless: true, ID: "h-r7-C02-fixed", Patch: "seeded/C02g-perf-idonly-fastpath/fixed.diff"},
+		{Harmless: true, ID: "h-r7-C03-fixed", Patch: "seeded/C03g-perf-retarget-readers/fixed.diff"},
+		{Harmless: true, ID: "h-r7-C05-fixed", Patch: "seeded/C05g-perf-reset-segment-slots/fixed.diff"},
+		{Harmless: true, ID: "h-r7-C06-fixed", Patch: "seeded/C06g-perf-per-field-bytecopy/fixed.diff"},
+		{Harmless: true, ID: "h-r7-C07-fixed", Patch: "seeded/C07g-perf-recycle-actual-bitmap/fixed.diff"},
+		{Harmless: true, ID: "h-r7-C08-fixed", Patch: "seeded/C08g-perf-count-from-header/fixed.diff"},
+		{Harmless: true, ID: "h-r7-C09-fixed", Patch: "seeded/C09g-perf-intcoder-partial-reset/fixed.diff"},
+		{Harmless: true, ID: "h-r7-C10-fixed", Patch: "seeded/C10g-perf-failfast-recycle/fixed.diff"},
+		{Harmless: true, ID: "h-r7-C11-fixed", Patch: "seeded/C11g-perf-stored-memo/fixed.diff"},
+		{Harmless: true, ID: "h-r7-C12-fixed", Patch: "seeded/C12g-perf-synterm-slice/fixed.diff"},
+		{Harmless: true, ID: "h-r7-C13-fixed", Patch: "seeded/C13g-perf-synid-remap/fixed.diff"},
+		{Harmless: true, ID: "h-r7-C17-fixed", Patch: "seeded/C17g-perf-small-merge-in-memory/fixed.diff"},
+		{Harmless: true, ID: "h-r7-C18-fixed", Patch: "seeded/C18g-perf-empty-merge-fastpath/fixed.diff"},
+		{Harmless: true, ID: "h-r7-C20-fixed", Patch: "seeded/C20g-perf-evict-synonym-cache/fixed.diff"},
+		{Harmless: true, ID: "h-r7-C14-fixed", Patch: "seeded/C14g-disguised-loadfor-early-return/fixed.diff"},
+		{Harmless: true, ID: "h-r7-C14-fixed-vectors", Patch: "seeded/C14g-disguised-loadfor-early-return/fixed.diff", Vectors: true},
+		{Harmless: true, ID: "h-r7-C15-fixed", Patch: "seeded/C15g-disguised-vecsegs-index/fixed.diff"},
+		{Harmless: true, ID: "h-r7-C15-fixed-vectors", Patch: "seeded/C15g-disguised-vecsegs-index/fixed.diff", Vectors: true},
+		{Harmless: true, ID: "h-r7-C16-fixed", Patch: "seeded/C16g-disguised-load-before-complete/fixed.diff"},
+		{Harmless: true, ID: "h-r7-C16-fixed-vectors", Patch: "seeded/C16g-disguised-load-before-complete/fixed.diff", Vectors: true},
+		{Harmless: true, ID: "h-r7-C19-fixed", Patch: "seeded/C19g-disguised-populated-index-helper/fixed.diff"},
+		{Harmless: true, ID: "h-r7-C19-fixed-vectors", Patch: "seeded/C19g-disguised-populated-index-helper/fixed.diff", Vectors: true},
 	}
 }
